@@ -197,7 +197,7 @@ Qed.
 
 Lemma lock_new_justified : forall d c h d' r l',
     locks_uniq d -> exec d c h = Some (d', r) -> In l' (locks d') ->
-    In l' (locks d) \/ creates l' c = true \/ (hb_for l' c = true /\ exists l, In l (locks d) /\ same4 l l').
+    In l' (locks d) \/ acq_exact l' c = true \/ (hb_for l' c = true /\ exists l, In l (locks d) /\ same4 l l').
 Proof.
   intros d c h d' r l' U H Hl. destruct (is_lock_write c) eqn:W.
   - destruct c; cbn in W; try discriminate; cbn in H; unfold alter in H; inversion H; subst; clear H; cbn in *.
@@ -209,9 +209,9 @@ Proof.
         destruct (find_lock_some _ _ _ F) as [Hin0 Hres0].
         rewrite Er, !String.eqb_refl. cbn.
         assert (x = l0) by (eapply uniq_same_res; eauto; congruence). subst x.
-        apply String.eqb_eq in E. rewrite E, String.eqb_refl. reflexivity.
+        apply String.eqb_eq in E. rewrite E, !String.eqb_refl, !Z.eqb_refl. reflexivity.
       * apply in_app_or in Hl. destruct Hl as [Hl|[Hl|[]]]; [tauto|]. subst l'. right; left. cbn.
-        rewrite !String.eqb_refl. reflexivity.
+        rewrite !String.eqb_refl, !Z.eqb_refl. reflexivity.
     + apply filter_In in Hl. tauto.
     + apply in_map_iff in Hl. destruct Hl as [x [Hx Hin]].
       destruct (String.eqb (l_proc x) proc) eqn:E; [|subst; tauto].
